@@ -1,6 +1,6 @@
 (* Dispatcher of the model area: time zones (C11 C12 C13).
    [dispatch_tz f a] = Some result when [f] names a function of this area.  Definitions only. *)
-Require Import Lib.Base Model.Params Model.TzRules Model.TzCache.
+Require Import Lib.Base Model.Params Model.TzRules Model.TzCache Model.TzGen.
 From Coq Require Import String.
 Local Open Scope string_scope.
 
@@ -128,8 +128,34 @@ Definition dispatch_cache (f : list N) (a : jv) : option jv :=
          | _ => junsupported end
   else None.
 
+(* ------------------------------------------------------------------ C13 *)
+Definition tabval_of (l : list jv) : option (Z * Z * list N) :=
+  match l with [JZ o; JZ d; JS n] => Some (o, d, n) | _ => None end.
+Fixpoint ztab_of (l : list jv) : option ztab :=
+  match l with
+  | [] => Some []
+  | JL (JZ b :: v) :: r =>
+      match tabval_of v, ztab_of r with Some v', Some r' => Some ((b, v') :: r') | _, _ => None end
+  | _ => None
+  end.
+Definition jgobs (g : gobs) : jv :=
+  JL [jbool (g_std g); JZ (g_from g); JZ (g_to g); JS (g_name g); JZ (g_dtstart g); JL (map JZ (g_rdates g))].
+
+Definition dispatch_c13 (f : list N) (a : jv) : option jv :=
+  if tzis f "tz_from_tzinfo" then
+    Some match a with
+         | JL [JL tab; JL dflt; JZ pytz_axis; JZ H; JZ fuel; JZ first; JZ last; JZ last_wall] =>
+             match ztab_of tab, tabval_of dflt with
+             | Some tab', Some d =>
+                 tz_jres (fun g => JL (map jgobs g))
+                   (from_tzinfo_tab tab' d (negb (pytz_axis =? 0)%Z) H (Z.to_nat fuel) first last last_wall)
+             | _, _ => junsupported
+             end
+         | _ => junsupported end
+  else None.
+
 Definition dispatch_tz (f : list N) (a : jv) : option jv :=
   match dispatch_c12 f a with
   | Some r => Some r
-  | None => dispatch_cache f a
+  | None => match dispatch_cache f a with Some r => Some r | None => dispatch_c13 f a end
   end.
